@@ -4,41 +4,81 @@ CHECK = {
     "translators": ["c04_gates"],
     "level": "proof",
     "technique": "Lean 4 theorems over an emitter model of the native chips (all fields, all assignments, "
-                 "all contexts) + generated gate polynomials + structural correspondence with the recorded "
-                 "real synthesis + fault injection through the real MockProver",
+                 "all contexts) and an invariant theorem over whole programs of a typed core language "
+                 "(induction over the operation list) + generated gate polynomials + structural "
+                 "correspondence with the recorded real synthesis, including the content of the gadget's "
+                 "bound cache read through a hook + fault injection through the real MockProver + a range "
+                 "oracle (honest witnesses on both sides of every asserted bound)",
     "rule": "a case = one program (operation x parameters x configuration) with its inputs; non-trivial = "
-            "it emits at least one region; distinctness by hash of the request line (trace / eval / check)",
+            "it emits at least one region; distinctness by hash of the request line (trace / eval / check). "
+            "The correspondence is deliberately tight: a trace line is the cell-by-cell structure of the "
+            "synthesis plus the final bound cache, so a change that emits an equivalent but different "
+            "constraint system (or records a different but still sound bound) is reported as a model/impl "
+            "difference (VIOLATION without failing input) - the model has to be updated with the code",
     "explanation": "Kernel-checked soundness theorems about the constraint rows each native-field gadget "
                    "operation emits (every assignment of the advice cells, every field); the rows are tied to "
                    "the code by (a) gate polynomials and lookup arguments dumped from the real configure and "
                    "re-proved equal to the model's row predicate on every run, (b) cell-by-cell equality of the "
-                   "model's emitted structure with the recorded real synthesis of every operation, (c) "
-                   "agreement of the model's constraint evaluator with the real MockProver on honest and "
-                   "tampered assignments, (d) honest witnesses accepted / forged outputs rejected by the real "
-                   "MockProver",
+                   "model's emitted structure with the recorded real synthesis of every operation, and equality "
+                   "of the model's bound cache with NativeGadget::constrained_cells (hook "
+                   "verif_constrained_cells) at the end of every program, (c) agreement of the model's "
+                   "constraint evaluator with the real MockProver on honest and tampered assignments, (d) "
+                   "honest witnesses accepted / forged outputs rejected by the real MockProver, (e) a range "
+                   "oracle independent of the model: every reader of the bound cache is run right after every "
+                   "writer with the bound argument in {b-1, b, b+1, 2^k, 2^k+-1} around the recorded bound b, "
+                   "with honest witnesses on both sides of each asserted bound; MockProver accepting a witness "
+                   "outside an asserted range, rejecting one inside, or an accepted execution returning a "
+                   "comparison bit that differs from the integer comparison is a violation with the failing "
+                   "input. The invariant theorem bounds_sound (every cache entry is implied by the emitted "
+                   "constraints, in every state reachable by a program of the core language) is what makes "
+                   "the early returns of assert_lower_than_fixed / lower_than_fixed / the conversions sound",
     "trusted_base": [
         "halo2 front end: SimpleFloorPlanner places regions so that no enabled gate reads a relevant cell "
         "outside its region (checked per run by MockProver's CellNotAssigned analysis on every case)",
-        "the recording Assignment backend and the gate dump (harness) print what the code does",
+        "the recording Assignment backend, the gate dump and the hook verif_constrained_cells (a read-only "
+        "copy of the HashMap) print what the code does",
         "rows outside regions carry no enabled selector (tag 0 / value 0 is in the lookup table)",
+        "the request parser of the Lean driver (parseCore / execOp) maps request text to the operations the "
+        "theorems are about (the harness interprets the same text with the real chips)",
     ],
     "assumptions": [
         "range-check theorems assume the lookup table predicate R(t, v) implies v = n for some n < 2^t "
         "(the table loaded by Pow2RangeChip::load_table is checked to enumerate exactly [0, 2^t) per run)",
         "comparison / decomposition uniqueness theorems assume the characteristic exceeds the stated bounds",
+        "bounds_sound covers programs of the core language (COp); operations outside it (decompositions to "
+        "bits/bytes/chunks, sgn0, bulk assignments, pow, inv/div/inv0, add_constants, cond_swap, bit-typed "
+        "equality, canonicity tests on bit strings, bitwise and/or/xor) re-establish the invariant in their "
+        "own _sound lemmas under the hypotheses stated there, but are not part of the induction",
     ],
     "level_text": "Kernel-checked Lean theorems (every field, every advice assignment, every emission context) "
                   "about an emitter model of NativeChip / Pow2RangeChip / P2RDecompositionChip / NativeGadget, "
-                  "with gates regenerated from the real configure and the emitters compared cell by cell with "
-                  "the real synthesis on every run",
+                  "plus an invariant theorem over all programs of a typed core language (bound cache, constant "
+                  "cache, type invariants of bits/bytes/bounded values), with gates regenerated from the real "
+                  "configure and the emitters and the bound cache compared cell by cell with the real synthesis "
+                  "on every run",
     "level_note": "Proved (soundness, every assignment/field/context): linear combinations of any length, add/sub/"
                   "neg/mul/div/inv/inv0, constants, assertions, equality and zero tests, select/cond_swap, boolean "
                   "logic on lists, bit equality, decompose_core / assert_less_than_pow2 (every limb-size list, 1..4 "
-                  "lookup columns), assert_lower_than_fixed (partial: bound-cache early return), lower_than; "
-                  "completeness for is_equal, inv, cond_swap. div_rem: unsound without a dividend bound (known "
-                  "finding), proved under bound + divisor <= p. Correspondence-only: canonicity of bit strings, "
-                  "bits/bytes/chunks/sgn0, conversions, comparison variants, add_constants, pow. Not modelled: "
-                  "VectorGadget, MapGadget, bitwise word instructions. Trusted: Lean kernel, harness/recorder, halo2 "
-                  "layouter semantics",
+                  "lookup columns, every bit length), assert_lower_than_fixed / assign_lower_than_fixed (every "
+                  "path; in every reachable state without cache hypotheses: assert_lower_than_fixed_sound_"
+                  "reachable), lower_than / lower_than_fixed (also in every reachable state) / leq / geq / "
+                  "greater_than and the _fixed variants, decompositions to bits / bytes / chunks with and without "
+                  "canonicity, sgn0, le_bits comparisons (is_canonical), recomposition from bits / bytes, "
+                  "conversions native<->bit/byte, pow, add_constants, bnot, byte-typed is_equal / assert_equal, "
+                  "div_rem with a dividend bound at circuit level (div_rem_bounded_sound). BOUND-CACHE INVARIANT "
+                  "(bounds_sound): for every program of the core language (55 operations: every writer and reader "
+                  "of constrained_cells) and every accepted assignment, every cache entry (cell, b) satisfies "
+                  "cell < b, every cached constant holds, every bit/byte/bounded variable holds its type bound - "
+                  "by induction over the operation list. Completeness (honest witness exists): is_equal, "
+                  "is_not_equal, is_equal_to_fixed, inv, cond_swap, select, assert_not_equal, the multiplication "
+                  "row. div_rem without a dividend bound: unsound (known finding). Correspondence-only (structure "
+                  "+ values + range oracle, no theorem): band / bor / bxor, rem, ysel, byte-typed is_not_equal / "
+                  "*_to_fixed / assert_* variants other than those listed, bulk assignments, the big-endian "
+                  "decomposition / recomposition defaults (modelled as the little-endian emitters with reversed "
+                  "operands / results). byte_bound_is_tight: the entry (byte cell, 255) is NOT implied by the "
+                  "constraints (explicit accepted assignment), so a model of a code recording u8::MAX cannot "
+                  "prove the y2n step of bounds_sound. Not modelled in "
+                  "Lean: VectorGadget (harness cases exist but are gated off), MapGadget. Trusted: Lean kernel, "
+                  "harness/recorder/hook, halo2 layouter semantics, request parser",
     "timeout": {"quick": 900, "thorough": 3000, "search": 900},
 }
